@@ -12,7 +12,8 @@
 
    One query = a fixed list of atomic steps; a schedule is a list of query ids,
    each occurrence lets that query take its next step (a query waiting for the
-   lock does not move).  Two protocols: the order the code has now (planning
+   lock does not move).  Histories may also contain queries whose binding fails
+   (read error during schema inference) and queries whose future is dropped.  Two protocols: the order the code has now (planning
    inside the critical section) and the order it had before the repair (lock
    released before planning).  Definitions only. *)
 From CS Require Import Base.Prelude.
@@ -77,8 +78,36 @@ Definition set_q (i : qid) (q : qstate) (st : state) : state :=
 Definition sel (sets : list (qid * chunkset)) (i : qid) : chunkset :=
   match aget N.eqb i sets with Some s => s | None => [] end.
 
-(* query i takes its next step *)
-Definition step (proto : list stepk) (sets : list (qid * chunkset)) (st : state) (i : qid) : state :=
+(* The query ends without a result: its binding failed (a read error while the
+   schema of its chunk files is inferred) or its future was dropped.  The guard
+   is dropped with it, so the lock is released if this query holds it.  The
+   shared binding is NOT touched: register_metrics_table_for_chunks_locked
+   returns the error before deregister/register_table, and assigns
+   registered_metrics_paths only after register_table succeeded; there is no
+   await between the table swap and that assignment, so a dropped future cannot
+   separate them either. *)
+Definition abort (proto : list stepk) (st : state) (i : qid) : state :=
+  match aget N.eqb i (qs st) with
+  | None => st
+  | Some q =>
+      let lk := match lock st with
+                | Some h => if N.eqb h i then None else Some h
+                | None => None
+                end in
+      set_q i (mkQ (length proto) (q_cap q) (q_res q)) (mkSt (tbl st) (paths st) lk (qs st))
+  end.
+
+(* registration reads the chunk files (schema inference) unless the requested
+   set is empty or already bound *)
+Definition reads_files (s : chunkset) (st : state) : bool :=
+  match s with
+  | [] => false
+  | _ => negb (eqb_list (paths st) s)
+  end.
+
+(* query i takes its next step; [faults] = the queries for which reading one of
+   their chunk files fails *)
+Definition step (faults : list qid) (proto : list stepk) (sets : list (qid * chunkset)) (st : state) (i : qid) : state :=
   match aget N.eqb i (qs st) with
   | None => st
   | Some q =>
@@ -92,7 +121,10 @@ Definition step (proto : list stepk) (sets : list (qid * chunkset)) (st : state)
               | Some _ => st                               (* waits *)
               | None => set_q i adv (mkSt (tbl st) (paths st) (Some i) (qs st))
               end
-          | KRegister => set_q i adv (register (sel sets i) st)
+          | KRegister =>
+              if memN i faults && reads_files (sel sets i) st
+              then abort proto st i                        (* binding failed: state unchanged *)
+              else set_q i adv (register (sel sets i) st)
           | KPause => set_q i adv st
           | KPlan => set_q i (mkQ (S (q_pc q)) (Some (tbl st)) (q_res q)) st
           | KUnlock => set_q i adv (mkSt (tbl st) (paths st) None (qs st))
@@ -101,8 +133,22 @@ Definition step (proto : list stepk) (sets : list (qid * chunkset)) (st : state)
       end
   end.
 
+(* a schedule without failures: a list of query ids *)
 Definition run (proto : list stepk) (sets : list (qid * chunkset)) (sched : list qid) (st : state) : state :=
-  fold_left (step proto sets) sched st.
+  fold_left (step [] proto sets) sched st.
+
+(* histories with failed bindings and dropped query futures: at any point a
+   query either takes its next step or is dropped *)
+Inductive ev := EStep (i : qid) | EDrop (i : qid).
+
+Definition apply_ev (faults : list qid) (proto : list stepk) (sets : list (qid * chunkset)) (st : state) (e : ev) : state :=
+  match e with
+  | EStep i => step faults proto sets st i
+  | EDrop i => abort proto st i
+  end.
+
+Definition run_ev (faults : list qid) (proto : list stepk) (sets : list (qid * chunkset)) (evs : list ev) (st : state) : state :=
+  fold_left (apply_ev faults proto sets) evs st.
 
 Definition captured (st : state) (i : qid) : option chunkset :=
   match aget N.eqb i (qs st) with Some q => q_cap q | None => None end.
@@ -115,10 +161,11 @@ Definition pc_of (st : state) (i : qid) : nat :=
 
 (* ---------- the harness's command level ---------- *)
 (* The harness controls each query at one point only (the pause point):
-   `Start i` lets query i run until it reaches the pause point or has to wait
-   for the lock; `Resume i` lets a paused query run to completion, after which
-   queries that were waiting for the lock move on to their own pause point. *)
-Inductive cmd := Start (i : qid) | Resume (i : qid).
+   `Start i` lets query i run until it reaches the pause point, fails, or has
+   to wait for the lock; `Resume i` lets a paused query run to completion;
+   `Cancel i` drops the query's future wherever it is.  After a command, queries
+   that were waiting for the lock move on in arrival order. *)
+Inductive cmd := Start (i : qid) | Resume (i : qid) | Cancel (i : qid).
 
 Definition at_pause (proto : list stepk) (st : state) (i : qid) : bool :=
   match nth_error proto (pc_of st i) with Some KPause => true | _ => false end.
@@ -127,36 +174,37 @@ Definition done (proto : list stepk) (st : state) (i : qid) : bool :=
   match nth_error proto (pc_of st i) with None => true | _ => false end.
 
 (* advance i until it is at the pause point, finished, or does not move *)
-Fixpoint advance (proto : list stepk) (sets : list (qid * chunkset)) (fuel : nat) (st : state) (i : qid) : state :=
+Fixpoint advance (faults : list qid) (proto : list stepk) (sets : list (qid * chunkset)) (fuel : nat) (st : state) (i : qid) : state :=
   match fuel with
   | O => st
   | S f =>
       if at_pause proto st i || done proto st i then st
       else
-        let st' := step proto sets st i in
-        if Nat.eqb (pc_of st' i) (pc_of st i) then st' else advance proto sets f st' i
+        let st' := step faults proto sets st i in
+        if Nat.eqb (pc_of st' i) (pc_of st i) then st' else advance faults proto sets f st' i
   end.
 
 (* pass the pause point and run to the end *)
-Definition finish (proto : list stepk) (sets : list (qid * chunkset)) (st : state) (i : qid) : state :=
+Definition finish (faults : list qid) (proto : list stepk) (sets : list (qid * chunkset)) (st : state) (i : qid) : state :=
   if at_pause proto st i
-  then fold_left (fun s _ => step proto sets s i) proto (step proto sets st i)
+  then fold_left (fun s _ => step faults proto sets s i) proto (step faults proto sets st i)
   else st.
 
-Definition run_cmd (proto : list stepk) (sets : list (qid * chunkset)) (started : list qid) (st : state) (c : cmd)
+Definition settle (faults : list qid) (proto : list stepk) (sets : list (qid * chunkset)) (started : list qid) (st : state) : state :=
+  fold_left (fun s j => advance faults proto sets (length proto) s j) started st.
+
+Definition run_cmd (faults : list qid) (proto : list stepk) (sets : list (qid * chunkset)) (started : list qid) (st : state) (c : cmd)
   : state * list qid :=
   match c with
-  | Start i => (advance proto sets (length proto) st i, started ++ [i])
-  | Resume i =>
-      let st1 := finish proto sets st i in
-      (* started queries that wait for the lock get it in arrival order *)
-      (fold_left (fun s j => advance proto sets (length proto) s j) started st1, started)
+  | Start i => (settle faults proto sets (started ++ [i]) st, started ++ [i])
+  | Resume i => (settle faults proto sets started (finish faults proto sets st i), started)
+  | Cancel i => (settle faults proto sets started (abort proto st i), started)
   end.
 
-Fixpoint run_cmds (proto : list stepk) (sets : list (qid * chunkset)) (cs : list cmd) (started : list qid) (st : state) : state :=
+Fixpoint run_cmds (faults : list qid) (proto : list stepk) (sets : list (qid * chunkset)) (cs : list cmd) (started : list qid) (st : state) : state :=
   match cs with
   | [] => st
-  | c :: r => let '(st', started') := run_cmd proto sets started st c in run_cmds proto sets r started' st'
+  | c :: r => let '(st', started') := run_cmd faults proto sets started st c in run_cmds faults proto sets r started' st'
   end.
 
 (* the rows a query returns come from the chunks that are both scanned and
